@@ -1,10 +1,15 @@
 /-
 Helper lemmas for C11: what `inet_pton6` (model) answers on every text made of groups, at most one `::`
-and an optional dotted-quad tail; and the context-free rejection lemmas.
+and an optional dotted-quad tail.
 -/
 import OsloProofs.Lemmas.C11V6
 set_option linter.unusedSimpArgs false
+set_option linter.unusedVariables false
 namespace Oslo.Net
+
+/-- close a goal made of nested arithmetic `if`s on both sides -/
+macro "ifs_omega" : tactic =>
+  `(tactic| ((repeat' split) <;> first | rfl | (exfalso; omega) | (simp_all; done) | (simp_all; omega)))
 
 theorem lemma_snoc_cases {α} (l : List α) : l = [] ∨ ∃ l' b, l = l' ++ [b] := by
   rcases List.eq_nil_or_concat l with h | ⟨l', b, h⟩
@@ -19,9 +24,7 @@ theorem lemma_finish6_some (D X : List Nat) :
       if D.length + X.length ≤ 7 then some (D ++ List.replicate (8 - (D.length + X.length)) 0 ++ X) else none := by
   unfold finish6
   simp only [List.length_append, List.take_left, List.drop_left]
-  by_cases h : D.length + X.length ≤ 7
-  · rw [if_neg (by omega), if_pos h]
-  · rw [if_pos (by omega), if_neg h]
+  ifs_omega
 
 /-- groups only -/
 theorem lemma_pton6_full (ts : List (List Char)) (h : ∀ t ∈ ts, IsGroup t) :
@@ -31,11 +34,7 @@ theorem lemma_pton6_full (ts : List (List Char)) (h : ∀ t ∈ ts, IsGroup t) :
   · rw [lemma_pton6_groups_last pre t (fun x hx => h x (by simp [hx])) (h t (by simp)), lemma_finish6_none]
     simp only [List.length_append, List.length_map, List.length_cons, List.length_nil, List.map_append,
       List.map_cons, List.map_nil]
-    by_cases h8 : pre.length + 1 = 8
-    · rw [if_pos (by omega), if_pos (by omega), if_pos (by omega)]
-    · by_cases h9 : pre.length + 1 ≤ 8
-      · rw [if_pos h9, if_neg (by omega), if_neg (by omega)]
-      · rw [if_neg h9, if_neg (by omega)]
+    ifs_omega
 
 /-- groups, `::`, groups -/
 theorem lemma_pton6_compressed (pre post : List (List Char)) (hp : ∀ t ∈ pre, IsGroup t)
@@ -51,11 +50,7 @@ theorem lemma_pton6_compressed (pre post : List (List Char)) (hp : ∀ t ∈ pre
     have := lemma_finish6_some (pre.map groupVal) []
     simp only [List.append_nil, hlen, List.length_nil, Nat.add_zero] at this
     rw [this]
-    by_cases h : pre.length ≤ 7
-    · rw [if_pos (by omega), if_pos h, if_pos h]
-    · by_cases h8 : pre.length ≤ 8
-      · rw [if_pos h8, if_neg h, if_neg h]
-      · rw [if_neg h8, if_neg h]
+    ifs_omega
   · have ht := hq t (by simp)
     have hq' : ∀ x ∈ post', IsGroup x := fun x hx => hq x (by simp [hx])
     obtain ⟨c0, r0, ht0, _⟩ := lemma_group_head t ht
@@ -63,20 +58,12 @@ theorem lemma_pton6_compressed (pre post : List (List Char)) (hp : ∀ t ∈ pre
     · rw [if_pos h8, lemma_join_snoc, lemma_go6_groups post' t _ _ hq' (by rw [ht0]; simp) (by simpa using h8)]
       simp only [hlen, List.length_append, List.length_cons, List.length_nil, List.map_append, List.map_cons,
         List.map_nil]
-      by_cases h2 : pre.length + post'.length ≤ 8
-      · rw [if_pos h2, lemma_go6_group_end t _ _ ht]
-        simp only [List.length_append, hlen, List.length_map]
-        by_cases h3 : pre.length + post'.length < 8
-        · rw [if_pos h3]
-          have := lemma_finish6_some (pre.map groupVal) (post'.map groupVal ++ [groupVal t])
-          simp only [hlen, List.length_append, List.length_map, List.length_cons, List.length_nil,
-            ← List.append_assoc] at this ⊢
-          rw [this]
-          by_cases h4 : pre.length + (post'.length + 1) ≤ 7
-          · rw [if_pos h4, if_pos (by omega)]
-          · rw [if_neg h4, if_neg (by omega)]
-        · rw [if_neg h3, if_neg (by omega)]
-      · rw [if_neg h2, if_neg (by omega)]
+      rw [lemma_go6_group_end t _ _ ht]
+      have := lemma_finish6_some (pre.map groupVal) (post'.map groupVal ++ [groupVal t])
+      simp only [hlen, List.length_append, List.length_map, List.length_cons, List.length_nil,
+        ← List.append_assoc] at this ⊢
+      rw [this]
+      ifs_omega
     · rw [if_neg h8, if_neg (by simp; omega)]
 
 /-- groups and a dotted-quad tail -/
@@ -94,17 +81,9 @@ theorem lemma_pton6_v4_full (pre : List (List Char)) (a b c d : Nat) (hp : ∀ t
         = c0 :: (r ++ ':' :: (withColons pre' ++ renderQuad a b c d)) := by simp [withColons, hu]
     rw [e, lemma_pton6_hex_start c0 _ hc0, ← e, lemma_go6_groups _ _ [] none hp hqne (by simp)]
     simp only [List.length_nil, Nat.zero_add, List.nil_append]
-    by_cases h8 : (u :: pre').length ≤ 8
-    · rw [if_pos h8, lemma_go6_quad a b c d ha hb hc hd, lemma_finish6_none]
-      simp only [List.length_map, List.length_append, List.length_cons, List.length_nil]
-      by_cases h6 : (u :: pre').length = 6
-      · simp only [List.length_cons] at h6
-        rw [if_pos (by omega), if_pos (by omega), if_pos (by simpa using h6)]
-      · simp only [List.length_cons] at h6
-        by_cases h7 : pre'.length + 1 + 2 ≤ 8
-        · rw [if_pos h7, if_neg (by omega), if_neg (by simpa using h6)]
-        · rw [if_neg h7, if_neg (by simpa using h6)]
-    · rw [if_neg h8, if_neg (by simp at h8 ⊢; omega)]
+    rw [lemma_go6_quad a b c d ha hb hc hd, lemma_finish6_none]
+    simp only [List.length_map, List.length_append, List.length_cons, List.length_nil]
+    ifs_omega
 
 /-- groups, `::`, groups and a dotted-quad tail -/
 theorem lemma_pton6_v4_compressed (pre post : List (List Char)) (a b c d : Nat) (hp : ∀ t ∈ pre, IsGroup t)
@@ -121,20 +100,16 @@ theorem lemma_pton6_v4_compressed (pre post : List (List Char)) (a b c d : Nat) 
   by_cases h8 : pre.length ≤ 8
   · rw [if_pos h8, lemma_go6_groups post _ _ _ hq hqne (by simpa using h8)]
     simp only [hlen]
-    by_cases h2 : pre.length + post.length ≤ 8
-    · rw [if_pos h2, lemma_go6_quad a b c d ha hb hc hd]
-      simp only [List.length_append, List.length_map]
-      by_cases h3 : pre.length + post.length + 2 ≤ 8
-      · rw [if_pos h3]
-        have := lemma_finish6_some (pre.map groupVal) (post.map groupVal ++ [a * 256 + b, c * 256 + d])
-        simp only [hlen, List.length_append, List.length_map, List.length_cons, List.length_nil,
-          ← List.append_assoc] at this ⊢
-        rw [this]
-        by_cases h4 : pre.length + post.length ≤ 5
-        · rw [if_pos (by omega), if_pos h4, show 8 - (pre.length + (post.length + (0 + 1 + 1))) = 6 - (pre.length + post.length) by omega]
-        · rw [if_neg (by omega), if_neg h4]
-      · rw [if_neg h3, if_neg (by omega)]
-    · rw [if_neg h2, if_neg (by omega)]
+    rw [lemma_go6_quad a b c d ha hb hc hd]
+    have := lemma_finish6_some (pre.map groupVal) (post.map groupVal ++ [a * 256 + b, c * 256 + d])
+    simp only [hlen, List.length_append, List.length_map, List.length_cons, List.length_nil,
+      List.append_assoc] at this ⊢
+    rw [this]
+    by_cases h4 : pre.length + post.length ≤ 5
+    · rw [if_pos h4, if_pos (by omega), if_pos (by omega), if_pos (by omega),
+        show 8 - (pre.length + (post.length + (0 + 1 + 1))) = 6 - (pre.length + post.length) by omega]
+    · rw [if_neg h4]
+      ifs_omega
   · rw [if_neg h8, if_neg (by omega)]
 
 end Oslo.Net
